@@ -113,7 +113,16 @@ pub fn check_case(case: &Case, rep: &mut Report, snapshots: bool, short_circuit:
         let r = guarded(|| transact_mon(&mut db, case.spec, &case.block, tx, &mut mon));
         let res = match r {
             Err(p) => {
-                report_panic(rep, "C25", &p, json!({"case": cj(), "tx_index": i, "mode": "inspected"}));
+                // the same case ran to completion without an inspector, so this panic belongs to the
+                // inspector path: it is a failure of the hook discipline (C29), of "an observing
+                // inspector does not change execution" when the inspector only observes (C28), and
+                // a panic as such (C25)
+                let cjv = json!({"case": cj(), "tx_index": i, "mode": if short_circuit.is_some() { "inspected, inspector answers some calls/creates itself" } else { "inspected" }});
+                report_panic(rep, "C25", &p, cjv.clone());
+                report_panic(rep, "C29", &p, cjv.clone());
+                if short_circuit.is_none() {
+                    report_panic(rep, "C28", &p, cjv);
+                }
                 return stats;
             }
             Ok(r) => r,
